@@ -158,12 +158,13 @@ def _system_of(key):
 
 def _plain_system(d):
     """JSON round trip turns tuples into lists and Fractions into strings"""
+    import re
     from fractions import Fraction
 
     def conv(x):
         if isinstance(x, list):
             return tuple(conv(y) for y in x)
-        if isinstance(x, str) and "/" in x and x.replace("/", "").replace("-", "").isdigit():
+        if isinstance(x, str) and re.fullmatch(r"-?\d+(/\d+)?", x):
             return Fraction(x)
         return x
 
